@@ -19,7 +19,7 @@ PY
 [ -z "$ids" ] && { echo "no mutations recorded for $WHICH"; exit 0; }
 echo "$ids" | xargs -P 6 -I{} sh -c "./bin/crsverif -mutation {} -repo $REPO -verif $(pwd) -no-evidence 2>/dev/null | grep '^MUTATION' || echo 'MUTATION {}: ERROR (no verdict)'" | sort > /tmp/mut.$$
 cat /tmp/mut.$$
-d=$(grep -c 'DETECTED\|UNDECIDED-AS-DESIGNED' /tmp/mut.$$); s=$(grep -c 'SILENT-AS-EXPECTED' /tmp/mut.$$); m=$(grep -c 'MISSED' /tmp/mut.$$); f=$(grep -c 'FALSE-ALARM' /tmp/mut.$$); k=$(grep -c 'SKIPPED' /tmp/mut.$$); b=$(grep -c 'BROKEN\|ERROR' /tmp/mut.$$)
+d=$(grep -c 'DETECTED\|UNDECIDED-AS-DESIGNED' /tmp/mut.$$); s=$(grep -c 'SILENT-AS-EXPECTED' /tmp/mut.$$); m=$(grep -c 'MISSED' /tmp/mut.$$); f=$(grep -c 'FALSE-ALARM' /tmp/mut.$$); k=$(grep -c 'SKIPPED' /tmp/mut.$$); b=$(grep -c ': BROKEN\|: ERROR' /tmp/mut.$$)
 echo "SUMMARY mutations=$(wc -l < /tmp/mut.$$) detected=$d silent_as_expected=$s missed=$m false_alarms=$f skipped=$k broken=$b"
 rm -f /tmp/mut.$$
 [ "$f" -eq 0 ]
